@@ -28,6 +28,7 @@ type Config struct {
 	Handles    int       `json:"handles"`
 	Colls      []string  `json:"colls"` // "scope.collection"; index 0 is always _default._default
 	MaxDocSize int       `json:"maxDocSize,omitempty"`
+	Keys       []string  `json:"keys,omitempty"` // document keys of this world (default: the profile's)
 	Feeds      []FeedCfg `json:"feeds,omitempty"`
 }
 
